@@ -134,9 +134,16 @@ func generateRequiredFieldsSnippet(label string, bodySchema *schema.BodySchema, 
 // ensure nested fields are accounted for. It takes care to add newlines and
 // tabs where necessary to have a snippet be formatted correctly in the target client
 func requiredFieldsSnippet(bodySchema *schema.BodySchema, placeholder int, indentCount int) string {
+	snippetText, _ := requiredFieldsSnippetNext(bodySchema, placeholder, indentCount)
+	return snippetText
+}
+
+// requiredFieldsSnippetNext is requiredFieldsSnippet which also returns the next unused
+// placeholder number, such that tab stops stay unique across attributes and nested blocks
+func requiredFieldsSnippetNext(bodySchema *schema.BodySchema, placeholder int, indentCount int) (string, int) {
 	// there are edge cases where we might not have a body, end early here
 	if bodySchema == nil {
-		return ""
+		return "", placeholder
 	}
 
 	snippetText := ""
@@ -171,7 +178,8 @@ func requiredFieldsSnippet(bodySchema *schema.BodySchema, placeholder int, inden
 		// We could plumb through the context here, but it saves us
 		// an argument in multiple functions above.
 		ctx := schema.WithPrefillRequiredFields(context.Background(), true)
-		snippet = attr.Constraint.EmptyCompletionData(ctx, placeholder, indentCount).Snippet
+		cData := attr.Constraint.EmptyCompletionData(ctx, placeholder, indentCount)
+		snippet = cData.Snippet
 		snippetText += fmt.Sprintf("%s%s = %s", indent, attrName, snippet)
 
 		// attrCount is used to tell if we are at the end of the list of attributes
@@ -181,7 +189,10 @@ func requiredFieldsSnippet(bodySchema *schema.BodySchema, placeholder int, inden
 		if attrCount <= reqAttr {
 			snippetText += "\n"
 		}
-		placeholder++
+		// continue after the last tab stop the attribute's own snippet used
+		if cData.NextPlaceholder > placeholder {
+			placeholder = cData.NextPlaceholder
+		}
 	}
 
 	// iterate over each block, skip if not required, and print snippet
@@ -205,12 +216,14 @@ func requiredFieldsSnippet(bodySchema *schema.BodySchema, placeholder int, inden
 		snippetText += fmt.Sprintf("%s%s%s {\n", indent, blockType, labels)
 		// we increment indentCount by 1 to indicate these are nested underneath
 		// recurse through the body to find any attributes or blocks and print snippet
-		snippetText += requiredFieldsSnippet(blockSchema.Body, placeholder, indentCount+1)
+		nestedText, nextPlaceholder := requiredFieldsSnippetNext(blockSchema.Body, placeholder, indentCount+1)
+		snippetText += nestedText
+		placeholder = nextPlaceholder
 		// final newline is needed here to properly format each block
 		snippetText += fmt.Sprintf("%s}\n", indent)
 	}
 
-	return snippetText
+	return snippetText, placeholder
 }
 
 func sortedSchemaKeys(m map[schema.SchemaKey]*schema.BodySchema) []schema.SchemaKey {
